@@ -255,4 +255,57 @@ theorem runHist_sound (w : World) (ops : List HOp) (st : St) (hs : StSound (InWo
       simp only [runHist]
       exact ih _ (get_sound w st i r hs).1
 
+/-! ### `importlib.reload` -/
+
+theorem reloadClasses_le (interned : List Nat) (cs : List ClassDef) (st : St) : StLe st (reloadClasses interned st cs).1 := by
+  induction cs generalizing st with
+  | nil => exact StLe.refl _
+  | cons c rest ih =>
+    simp only [reloadClasses]
+    split
+    · exact StLe.refl _
+    · have h1 := initSubclass_le c st
+      cases hi : initSubclass st c with
+      | mk s1 e1 =>
+        rw [hi] at h1
+        cases e1 with
+        | some e => exact h1
+        | none => exact h1.trans (ih s1)
+
+theorem reloadClasses_sound {U : ClassDef → Prop} (interned : List Nat) (cs : List ClassDef) (hU : ∀ c ∈ cs, U c) (st : St)
+    (hs : StSound U st) : StSound U (reloadClasses interned st cs).1 := by
+  induction cs generalizing st with
+  | nil => simpa [reloadClasses] using hs
+  | cons c rest ih =>
+    simp only [reloadClasses]
+    split
+    · exact hs
+    · have h1 := initSubclass_sound (hU c (by simp)) st hs
+      cases hi : initSubclass st c with
+      | mk s1 e1 =>
+        rw [hi] at h1
+        cases e1 with
+        | some e => simpa using h1
+        | none => exact ih (fun c hc => hU c (List.mem_cons_of_mem _ hc)) s1 h1
+
+/-- executing a class statement again (same module, same qualname string) re-registers the class: no collision, every
+binding as before -/
+theorem add_again {b b1 : Bank} {c : ClassDef} (h : b.add c = .ok b1) :
+    ∃ b2, b1.add c = .ok b2 ∧ ∀ r, lookupRef r b2.provider = lookupRef r b1.provider := by
+  have hcol : collides b1 c = false := by
+    rw [collides_false_iff]
+    intro r hr d hd
+    rw [lookup_after_add h] at hd
+    by_cases ha : c.abstract = false
+    · simp only [ha, hr, and_self, if_true, Option.some.injEq] at hd
+      exact hd.symm
+    · have hcb := (collides_false_iff b c).1 (add_ok' h).1
+      simp only [ha] at hd
+      exact hcb r hr d hd
+  obtain ⟨b2, hb2⟩ := add_of_not_collides hcol
+  refine ⟨b2, hb2, ?_⟩
+  intro r
+  rw [lookup_after_add hb2, lookup_after_add h]
+  by_cases hx : c.abstract = false ∧ r ∈ refs c <;> simp [hx]
+
 end ForML.Bank
